@@ -676,3 +676,64 @@ func init() {
 		return st.tt.And(st.tt.Eq(c[0].(*Term), a[1].(*Term)), st.tt.Eq(c[1].(*Term), extra.Len))
 	})
 }
+
+// dns.Msg.Pack / PackBuffer / Len are a contract, not an encoding: a message has a wire image
+// (arbitrary bytes of arbitrary length 12..24, fixed per message object); PackBuffer may build it
+// in the caller's buffer or in a fresh one (both are explored), or fail.
+func (st *State) wireImage(p Ptr) SliceV {
+	k := "wire:" + p.key()
+	if v, ok := st.kv[k]; ok {
+		return v.(SliceV)
+	}
+	tt := st.tt
+	n := st.freshInternal("wirelen", 64)
+	c := tt.RawULt(n, tt.Const(25, 64))
+	n.RHi = 24
+	st.assume(c)
+	st.assume(tt.Cmp(OpULe, tt.Const(12, 64), n))
+	bs := make([]*Term, 24)
+	for i := range bs {
+		bs[i] = st.freshInternal("wire", 8)
+	}
+	o := st.bytesObject(bs, "wire image")
+	s := SliceV{Arr: Ptr{Obj: o}, Off: tt.Const(0, 64), Len: n, Cap: n}
+	st.kv[k] = s
+	return s
+}
+
+func init() {
+	errTuple := func(st *State, v Value, msg string) Value {
+		if msg == "" {
+			return TupleV{v, IfaceV{}}
+		}
+		return TupleV{v, st.opaqueError(msg)}
+	}
+	reg("(*github.com/miekg/dns.Msg).Pack", simple(func(st *State, a []Value) Value {
+		w := st.wireImage(a[0].(Ptr))
+		fresh := st.makeSlice(byteType, w.Len, w.Len)
+		st.builtinCopy(fresh, w)
+		return errTuple(st, fresh, "")
+	}))
+	reg("(*github.com/miekg/dns.Msg).Len", simple(func(st *State, a []Value) Value {
+		return st.wireImage(a[0].(Ptr)).Len
+	}))
+	reg("(*github.com/miekg/dns.Msg).PackBuffer", simple(func(st *State, a []Value) Value {
+		w := st.wireImage(a[0].(Ptr))
+		buf := a[1].(SliceV)
+		switch st.decide("packbuffer", []int64{0, 1, 2}) {
+		case 0: // built in the caller's buffer when it is large enough
+			if buf.Arr.Obj != nil && st.branch(st.tt.Cmp(OpULe, w.Len, buf.Len)) {
+				dst := SliceV{Arr: buf.Arr, Off: buf.Off, Len: w.Len, Cap: buf.Cap}
+				st.builtinCopy(dst, w)
+				return errTuple(st, dst, "")
+			}
+			fallthrough
+		case 1: // the library allocated a fresh buffer
+			fresh := st.makeSlice(byteType, w.Len, w.Len)
+			st.builtinCopy(fresh, w)
+			return errTuple(st, fresh, "")
+		}
+		z := st.tt.Const(0, 64)
+		return errTuple(st, SliceV{Off: z, Len: z, Cap: z}, "dns: pack error")
+	}))
+}
